@@ -180,7 +180,8 @@ type GuardSpec struct {
 	G          func(a []bool) bool
 	GDesc      string
 	Extra      EdgeFilter
-	Avoid      InstrPred // instructions that end a path (e.g. the start of the next loop iteration)
+	Avoid      InstrPred           // instructions that end a path (e.g. the start of the next loop iteration)
+	Consistent func(a []bool) bool // optional: assignments that cannot occur (mutually exclusive atoms) are skipped
 	MinTargets int
 }
 
@@ -201,7 +202,7 @@ func evalGuard(p *Prog, gs GuardSpec) (ok bool, kind, detail, pos string, path [
 		for i := range assign {
 			assign[i] = mask&(1<<i) != 0
 		}
-		if gs.G(assign) {
+		if gs.G(assign) || (gs.Consistent != nil && !gs.Consistent(assign)) {
 			continue
 		}
 		w := findPathV(starts, andEdges(atomEdges(gs.Atoms, assign), gs.Extra), gs.Avoid, gs.Target, atomVals(gs.Atoms, assign))
@@ -363,4 +364,38 @@ func mShortCircuitAnd(lhs, rhs VMatch) VMatch {
 		}
 		return okL && okR
 	}
+}
+
+// checkGuardExact: the converse of checkGuard — whenever G holds, the target IS taken: from the
+// start points, under every assignment satisfying G, no path reaches `escape` without passing the
+// target. Used where the guard is an exact decision (skipping a qualifying entry is as wrong as
+// admitting a non-qualifying one).
+func checkGuardExact(p *Prog, r *Report, gs GuardSpec, escape InstrPred, escapeDesc string) {
+	name := fnName(gs.Fn)
+	what := fmt.Sprintf("whenever %s holds, %s (it is not skipped: %s is not reached first)", gs.GDesc, gs.TargetDesc, escapeDesc)
+	starts := gs.Starts
+	if starts == nil {
+		starts = entryPoint(gs.Fn)
+	}
+	n := len(gs.Atoms)
+	r.Site(1)
+	for mask := 0; mask < 1<<n; mask++ {
+		assign := make([]bool, n)
+		for i := range assign {
+			assign[i] = mask&(1<<i) != 0
+		}
+		if !gs.G(assign) || (gs.Consistent != nil && !gs.Consistent(assign)) {
+			continue
+		}
+		avoid := orPred(gs.Target, gs.Avoid)
+		if w := findPathV(starts, andEdges(atomEdges(gs.Atoms, assign), gs.Extra), avoid, escape, atomVals(gs.Atoms, assign)); w != nil {
+			var as []string
+			for i, a := range gs.Atoms {
+				as = append(as, fmt.Sprintf("%s=%v", a.Name, assign[i]))
+			}
+			r.Fail(name, gs.Rule+":qualifying-case-skipped", what, fmt.Sprintf("with {%s} a path reaches %s without %s", strings.Join(as, ", "), escapeDesc, gs.TargetDesc), p.posOfLast(w, escape), p.renderPath(w))
+			return
+		}
+	}
+	r.OK(name, gs.Rule+":exact", what)
 }
